@@ -16,6 +16,9 @@
       scripts are consumed one per Pull; when they run out while the loop still retries, the client goes away)
       -> "res=<ok|err:cls|clientGone> success=<true|false> attempts=<k> link=<manifest id|none>"
     canretry <ok|cls>  -> 1 | 0   (the model's `canRetry`)
+    shared <strict> <headB resps> (ans <resps> | transport | ownercancel) <cancelB 0|1> <npatchTries> {<resps>}* <ncommitTries> {<resps>}* <manA resps> <manB resps>
+      (two legacy pushes sharing one upload: B joins while A's session POST is outstanding)
+      -> "A: <events> res=<ok|err> | B: <events> res=<ok|err> | T: <events of the one transfer>"
     legacy <strict 0|1> <nlayers> {<head resps> <post resps> <npatchTries> {<resps>}* <ncommitTries> {<resps>}*}* <manifest resps>
       (<resps> := <n> {<status> <loc 0|1>}*: the answers to the physical requests of one exchange)
       -> "<events L<i>[h|p|a|c]:<METHOD>:<status> … M:<METHOD>:<status>> res=<ok|err>"
@@ -222,6 +225,25 @@ def handle (toks : List String) : Option String :=
     runTP (do
       let e ← pCls
       pure (if canRetry (.err e) then "1" else "0")) rest
+  | "shared" :: rest =>
+    runTP (do
+      let strict ← pBool
+      let headB ← listOf pResp
+      let post ← (do
+        match (← tok) with
+        | "ans" => return PostEnd.answered (← listOf pResp)
+        | "transport" => pure PostEnd.transport
+        | "ownercancel" => pure PostEnd.ownerCancelled
+        | _ => failure)
+      let cancelB ← pBool
+      let pa ← listOf (listOf pResp)
+      let co ← listOf (listOf pResp)
+      let manA ← listOf pResp
+      let manB ← listOf pResp
+      let r := sharedPush strict ⟨headB, post, cancelB, pa, co, manA, manB⟩
+      let sh := fun (l : List LegEv) => joinWith " " (l.map showLegEv)
+      let okS := fun (b : Bool) => if b then "ok" else "err"
+      pure s!"A: {sh r.logA} res={okS r.okA} | B: {sh r.logB} res={okS r.okB} | T: {sh r.logT}") rest
   | "legacy" :: rest =>
     runTP (do
       let strict ← pBool
